@@ -28,12 +28,13 @@ type c18Case struct {
 	I     int           `json:"i"`               // call index of the first fault
 	Kind  int           `json:"kind"`            // 0 error without effect, k>0: write torn at the k-th cut
 	Pairs bool          `json:"pairs"`           // also enumerate every second fault in the re-run
+	Enc   *encProtoCase `json:"enc,omitempty"`   // error-path search on ONE Encoder object: a Write torn at its 1st / 2nd file write, a load whose k-th read dies, then retries on that object (encproto.go)
 	Dec   *decProtoCase `json:"dec,omitempty"`   // error-path search on ONE Decoder object: interrupted Repairs, loads whose k-th read fails, then retries (decproto.go)
 	World int           `json:"world,omitempty"` // 0: 2 files / 3 blocks (PAR1: 3 files / 2 volumes); 1 (thorough): 3 files / 7 blocks in 3 recovery files (PAR1: 4 files / 3 volumes), all 6 listing orders
 }
 
 var c18P2Cfgs = []scen.P2Config{{Sizes: []int{11, 6}, Slice: 4, Blocks: 3, Class: "uniq"}, {Sizes: []int{11, 6, 9}, Slice: 4, Blocks: 7, Class: "uniq"},
-														{Sizes: []int{11, 6, 5}, Slice: 4, Blocks: 3, Class: "uniq", Names: []string{"sub/f0", "f1", "sub/deep/f2"}}} // world 2: protected files in sub-directories (any per-directory I/O is a further place to swallow a fault)
+																														{Sizes: []int{11, 6, 5}, Slice: 4, Blocks: 3, Class: "uniq", Names: []string{"sub/f0", "f1", "sub/deep/f2"}}} // world 2: protected files in sub-directories (any per-directory I/O is a further place to swallow a fault)
 var c18P1Cfgs = []scen.P1Config{{Sizes: []int{7, 5, 0}, Volumes: 2}, {Sizes: []int{7, 0, 3, 8}, Volumes: 3}, {Sizes: []int{1}, Volumes: 1} /* world 2 is PAR2 only */, {Sizes: []int{5, 3}, Volumes: 99}, {Sizes: []int{5, 3}, Volumes: 100}} // each world protects a zero-length file (a failed read and an empty file both yield no bytes)
 
 type c18World struct {
@@ -280,6 +281,15 @@ func c18Gen(g *core.Gen) {
 			}
 		}
 	}
+	// and on an Encoder object: a torn Write or a failed load, then the same calls again on that object ("once the fault
+	// is gone, rerunning the operation completes as if the fault had never occurred")
+	for _, f := range []string{"p2", "p1"} {
+		for _, a := range epFaultAlphabet {
+			for _, b := range epFaultAlphabet {
+				g.Emit(&c18Case{Enc: &encProtoCase{Kind: "encproto", Fmt: f, Prefix: []int{a, b}, Depth: decDepth + 1, Fault: true}})
+			}
+		}
+	}
 	c18GenManyVolumes(g)
 	states := []string{"intact", "missing", "changed", "shifted", "beyond", "volmissing", "two", "lookalike", "volnamed"}
 	worlds := []int{0, 2}
@@ -359,6 +369,10 @@ func c18Run(ci interface{}, r *core.Rec) {
 	c := ci.(*c18Case)
 	if c.Dec != nil {
 		decProtoRun(c.Dec, r, func(d *decProtoCase) interface{} { return &c18Case{Dec: d} })
+		return
+	}
+	if c.Enc != nil {
+		encProtoRun(c.Enc, r, func(e *encProtoCase) interface{} { return &c18Case{Enc: e} })
 		return
 	}
 	w := c18NewWorld(c.Fmt, c.World, r.Seed)
@@ -542,7 +556,7 @@ func init() {
 	core.Register(&core.Prop{
 		ID:    "C18",
 		Level: "fault_enumeration",
-		Rule: "(plus the error-path alphabet of the decoder protocol search - see C14 - on one Decoder object per sequence: Repair with its 1st / 2nd write torn, loads whose 1st / 2nd / 3rd read fails, then counts / Repair retries on the same object) environment enumeration on the owned filesystem: {Create, Verify, Repair, Repair+double-check} x {PAR1, PAR2} x archive state {intact, one file missing, one changed, one shifted, beyond capacity, volume missing + damage, two damaged, recovery data under look-alike names (a renamed volume whose blocks are needed + another set's index), an index file whose own name looks like a recovery file's} x listing order {sorted, reversed, rotated}; thorough adds a larger world (3 files, 7 blocks in 3 recovery files; PAR1 4 files, 3 volumes) with all 6 listing orders; a fault at EACH I/O call index of the never-faulted run, of each kind (error without effect; for reads additionally the error together with the first half of the file; for writes additionally torn at byte 0, 1, middle, len-1 and packet/field boundaries), and for each such fault EVERY second fault in the re-run (pairs), followed by a fault-free re-run. " +
+		Rule: "(plus the error-path alphabet of the decoder protocol search - see C14 - on one Decoder object per sequence: Repair with its 1st / 2nd write torn, loads whose 1st / 2nd / 3rd read fails, then counts / Repair retries on the same object; and the error-path alphabet of the encoder protocol search - see C05 / C10 - on one Encoder object per sequence: Write with its 1st / 2nd file write torn, loads whose 1st / 2nd read dies half-way, then the same calls again) environment enumeration on the owned filesystem: {Create, Verify, Repair, Repair+double-check} x {PAR1, PAR2} x archive state {intact, one file missing, one changed, one shifted, beyond capacity, volume missing + damage, two damaged, recovery data under look-alike names (a renamed volume whose blocks are needed + another set's index), an index file whose own name looks like a recovery file's} x listing order {sorted, reversed, rotated}; thorough adds a larger world (3 files, 7 blocks in 3 recovery files; PAR1 4 files, 3 volumes) with all 6 listing orders; a fault at EACH I/O call index of the never-faulted run, of each kind (error without effect; for reads additionally the error together with the first half of the file; for writes additionally torn at byte 0, 1, middle, len-1 and packet/field boundaries), and for each such fault EVERY second fault in the re-run (pairs), followed by a fault-free re-run. " +
 			"Oracle: a reached fault => non-nil error; a path whose write failed is not reported repaired; only write targets change; the fault-free re-run succeeds exactly like the never-faulted run and ends in the same directory whenever the reference says the (possibly torn) directory is still within capacity. non-trivial = the injected fault was reached",
 		Assumptions: []string{"faults are injected at the fileIO seam (the only I/O gopar performs)", "a torn write leaves a prefix of the data in the target file"},
 		NewCase:     func() interface{} { return &c18Case{} },
